@@ -107,3 +107,20 @@ m("C02-up-transparent-uses-upper-glyph", "C02", "image/block.py", "             
 m("C02-second-row-offset", "C02", "image/block.py", "zip(rgb[x : x + width], rgb[x + width : x + width * 2]),", "zip(rgb[x : x + width], rgb[x + width + 1 : x + width * 2 + 1]),")
 m("C02-px2-ignored", "C02", "image/block.py", "                    or px2 != cluster2\n", "")
 m("C02-glyph-constants-swapped", "C02", "image/block.py", 'LOWER_PIXEL = "\\u2584"', 'LOWER_PIXEL = "\\u2580"')
+# ---- kitty chunking
+m("C03-chunk-4095", "C03", "image/kitty.py", "def get_chunks(self, size: int = 4096)", "def get_chunks(self, size: int = 4095)")
+m("C03-m-flag-from-chunk", "C03", "image/kitty.py", 'm={bool(next_chunk):d}', 'm={bool(chunk):d}')
+m("C03-last-m-1", "C03", "image/kitty.py", 'yield KITTY_TRANSMISSION % ("m=0", chunk)', 'yield KITTY_TRANSMISSION % ("m=1", chunk)')
+m("C03-drops-final-chunk", "C03", "image/kitty.py", "            if chunk:  # false if there was never a next chunk\n                yield KITTY_TRANSMISSION % (\"m=0\", chunk)", "            pass")
+m("C03-control-in-every-chunk", "C03", "image/kitty.py", 'yield KITTY_TRANSMISSION % ("m=1", chunk)', 'yield KITTY_TRANSMISSION % (f"{self.get_control_data()},m=1", chunk)')
+m("C03-apc-unterminated", "C01", "_ctlseqs.py", 'KITTY_TRANSMISSION = f"{KITTY_START}{Pt};{Pt}{ST}"', 'KITTY_TRANSMISSION = f"{KITTY_START}{Pt};{Pt}"')
+# ---- kitty _render_image
+m("C03-cell-height-by-width", "C03", "image/kitty.py", "            cell_height = height // r_height", "            cell_height = height // r_width")
+m("C03-lines-v-is-height", "C03", "image/kitty.py", "            vars(control_data).update(v=cell_height, r=1)", "            vars(control_data).update(v=height, r=1)")
+m("C01-kitty-fill-erase-height", "C01", "image/kitty.py", 'fill = ("" if mix else ERASE_CHARS % r_width) + (CURSOR_FORWARD % r_width)', 'fill = ("" if mix else ERASE_CHARS % r_height) + (CURSOR_FORWARD % r_width)')
+m("C01-kitty-fill-forward-short", "C01", "image/kitty.py", 'fill = ("" if mix else ERASE_CHARS % r_width) + (CURSOR_FORWARD % r_width)', 'fill = ("" if mix else ERASE_CHARS % r_width) + (CURSOR_FORWARD % (r_width - 1))')
+m("C01-kitty-whole-extra-line", "C01", "image/kitty.py", "                fill_newline * (r_height - 1),\n                fill,", "                fill_newline * r_height,\n                fill,")
+m("C01-kitty-lines-missing-last-fill", "C01", "image/kitty.py", "                buffer.write(fill)\n\n                return buffer.getvalue()", "                return buffer.getvalue()")
+m("C03-whole-r-one", "C03", "image/kitty.py", "        vars(control_data).update(v=height, r=r_height)", "        vars(control_data).update(v=height, r=1)")
+m("C03-bpl-no-format", "C03", "image/kitty.py", "            bytes_per_line = width * cell_height * (format // 8)", "            bytes_per_line = width * cell_height * 4")
+m("C03-c-is-pixel-width", "C03", "image/kitty.py", "control_data = ControlData(f=format, s=width, c=r_width, z=z_index)", "control_data = ControlData(f=format, s=width, c=width, z=z_index)")
